@@ -11,10 +11,11 @@
 //!   astar : (graph, dir, [(from, to, astar_path result)])              -> check_astar
 //!   algo  : (graph, scc, wcc, mst, kcore, triangles, biconnected, kcore default cfg) -> check_algo
 //!   allw  : (graph, [(from, to, find_all_weighted_paths result)])      -> check_allw
+//!   pat   : (graph, config, [(from, to, match_pattern variable-length paths)]) -> check_pat
 //! The "current graph" of a case is what the engine's own public reads (all_nodes/all_edges)
 //! return after the build script (creations + deletions) ran.
 use graph_engine::{
-    AStarConfig, AllPathsConfig, BiconnectedConfig, CompareOp, Direction, GraphEngine, GraphError, KCoreConfig,
+    EdgePattern, NodePattern, PathPattern, Pattern, AStarConfig, AllPathsConfig, BiconnectedConfig, CompareOp, Direction, GraphEngine, GraphError, KCoreConfig,
     MstConfig, PropertyValue, SccConfig, TraversalFilter, TriangleConfig, VariableLengthConfig,
 };
 use nvh_common::*;
@@ -114,8 +115,14 @@ enum BOp {
     DelEdge(u64),
     DelNode(u64),
 }
+thread_local! {
+    static NODE_SEQ: std::cell::Cell<u64> = const { std::cell::Cell::new(0) };
+}
+
+/// every node gets the labels N and n<id> (ids are handed out 1, 2, .. in creation order)
 fn build(ops: &[BOp]) -> GraphEngine {
     let e = GraphEngine::new();
+    NODE_SEQ.with(|c| c.set(0));
     for o in ops {
         match o {
             BOp::Node(p) => {
@@ -123,7 +130,11 @@ fn build(ops: &[BOp]) -> GraphEngine {
                 if let Some(p) = p {
                     props.insert("p".to_string(), PropertyValue::Int(*p as i64));
                 }
-                e.create_node("N", props).unwrap();
+                let idx = e.get_all_node_ids().map(|v| v.len()).unwrap_or(0) as u64;
+                let _ = idx;
+                NODE_SEQ.with(|c| c.set(c.get() + 1));
+                let label = format!("n{}", NODE_SEQ.with(|c| c.get()));
+                e.create_node_with_labels(vec!["N".to_string(), label], props).unwrap();
             }
             BOp::Edge(f, t, d, ty, w, q) => {
                 let mut props = HashMap::new();
@@ -348,6 +359,7 @@ struct Kinds {
     astar: CaseWriter,
     algo: CaseWriter,
     allw: CaseWriter,
+    pat: CaseWriter,
 }
 
 fn bfs_case(e: &GraphEngine, s: &Snap, f: &Filt, use_none: bool, ps: &[(u64, u64)], tag: &str, k: &mut Kinds, dist: &mut Dist) {
@@ -549,12 +561,68 @@ fn trav_case(e: &GraphEngine, s: &Snap, dir: u64, depth: u64, ty: Option<u64>, f
     k.trav.push(&term, &human, deep);
 }
 
+/// true weighted distances (Floyd-Warshall over the snapshot) for an admissible, consistent heuristic
+fn true_dists(s: &Snap, dir: u64) -> HashMap<(u64, u64), f64> {
+    let ids: Vec<u64> = s.nodes.iter().map(|x| x.0).collect();
+    let mut d: HashMap<(u64, u64), f64> = HashMap::new();
+    for a in &ids {
+        d.insert((*a, *a), 0.0);
+    }
+    let relax = |d: &mut HashMap<(u64, u64), f64>, a: u64, b: u64, w: f64| {
+        let cur = d.get(&(a, b)).copied().unwrap_or(f64::INFINITY);
+        if w < cur {
+            d.insert((a, b), w);
+        }
+    };
+    for e in &s.edges {
+        let w = e.w.unwrap_or(1) as f64;
+        let fwd = dir == 0 || dir == 2;
+        let bwd = dir == 1 || dir == 2;
+        if fwd || !e.directed {
+            relax(&mut d, e.from, e.to, w);
+        }
+        if bwd || !e.directed {
+            relax(&mut d, e.to, e.from, w);
+        }
+    }
+    for k in &ids {
+        for a in &ids {
+            for b in &ids {
+                if let (Some(x), Some(y)) = (d.get(&(*a, *k)).copied(), d.get(&(*k, *b)).copied()) {
+                    relax(&mut d, *a, *b, x + y);
+                }
+            }
+        }
+    }
+    d
+}
+
+/// variant 0: zero heuristic (the result passed in); 1: half the true remaining distance (admissible and
+/// consistent); 2: astar_path_euclidean on nodes without coordinates (heuristic 0, outgoing, default weights
+/// are not used here: only called when every edge has weight property... see caller)
+fn astar_variant(e: &GraphEngine, s: &Snap, dir: u64, a: u64, b: u64, variant: u64, zero: Result<graph_engine::Result<graph_engine::AStarResult>, String>) -> Result<graph_engine::Result<graph_engine::AStarResult>, String> {
+    if variant == 1 {
+        let d = true_dists(s, dir);
+        let h: graph_engine::HeuristicFn = Box::new(move |cur, target, _| d.get(&(cur, target)).copied().map_or(0.0, |x| x * 0.5));
+        let cfg = AStarConfig::new().weight_property("w").default_weight(1.0).direction(dir_of(dir)).heuristic(h);
+        guarded(std::panic::AssertUnwindSafe(|| e.astar_path(a, b, &cfg)))
+    } else {
+        zero
+    }
+}
+
 fn astar_case(e: &GraphEngine, s: &Snap, dir: u64, ps: &[(u64, u64)], tag: &str, k: &mut Kinds, dist: &mut Dist) {
+    astar_case_v(e, s, dir, 0, ps, tag, k, dist)
+}
+
+fn astar_case_v(e: &GraphEngine, s: &Snap, dir: u64, variant: u64, ps: &[(u64, u64)], tag: &str, k: &mut Kinds, dist: &mut Dist) {
     let mut items = vec![];
     let mut longest = 0usize;
     for (a, bb) in ps {
         let cfg = AStarConfig::new().weight_property("w").default_weight(1.0).direction(dir_of(dir));
         let res = guarded(std::panic::AssertUnwindSafe(|| e.astar_path(*a, *bb, &cfg)));
+        let _ = &res;
+        let res = astar_variant(e, s, dir, *a, *bb, variant, res);
         let t = match res {
             Ok(Ok(r)) => match r.path {
                 Some(p) => match fint(p.total_weight) {
@@ -575,7 +643,7 @@ fn astar_case(e: &GraphEngine, s: &Snap, dir: u64, ps: &[(u64, u64)], tag: &str,
         items.push(format!("({a}, {bb}, {t})"));
     }
     let term = format!("({}, {}, {})", s.coq(), dir, list(items));
-    let human = format!("{tag} astar_path(zero heuristic, prop w) dir={dir} pairs={} graph: {}", ps.len(), s.human());
+    let human = format!("{tag} astar_path({}, prop w) dir={dir} pairs={} graph: {}", if variant == 1 { "heuristic = half the true remaining distance" } else { "zero heuristic" }, ps.len(), s.human());
     k.astar.push(&term, &human, longest >= 2);
 }
 
@@ -660,6 +728,37 @@ fn gen_weighted_small(r: &mut Rng) -> Vec<BOp> {
     }
     ops.push(BOp::Edge(1, nn, dirmode != 1, 0, Some(r.range(2, 12)), None));
     ops
+}
+
+/// variable-length PATTERN match: (n<from>)-[p:*min..max, type?, direction]->(n<to>), paths bound to p
+fn pat_case(e: &GraphEngine, s: &Snap, c: &VCfg, ps: &[(u64, u64)], tag: &str, k: &mut Kinds, dist: &mut Dist) {
+    let mut items = vec![];
+    let mut some = false;
+    for (a, bb) in ps {
+        let mut ep = EdgePattern::new().variable("p").variable_length(c.min as usize, c.max as usize).direction(dir_of(c.dir));
+        if let Some(ts) = &c.types {
+            ep = ep.edge_type(&ty_name(ts[0]));
+        }
+        let pattern = Pattern::new(PathPattern::new(NodePattern::new().label(&format!("n{a}")), ep, NodePattern::new().label(&format!("n{bb}")))).limit(100_000);
+        let res = guarded(std::panic::AssertUnwindSafe(|| e.match_pattern(&pattern)));
+        let t = match res {
+            Ok(Ok(r)) => {
+                let v: Vec<(Vec<u64>, Vec<u64>)> = r.matches.iter().filter_map(|m| m.get_path("p").map(|x| (x.nodes.clone(), x.edges.clone()))).collect();
+                if v.len() != r.matches.len() || v.len() > 300 {
+                    dist.hit("pat.skipped");
+                    continue;
+                }
+                some |= v.iter().any(|x| x.1.len() >= 2);
+                dist.hit(if v.is_empty() { "pat.no_paths" } else { "pat.some_paths" });
+                format!("VOk {}", paths_coq(&v))
+            }
+            _ => "VErr".into(),
+        };
+        items.push(format!("({a}, {bb}, {t})"));
+    }
+    let term = format!("({}, {}, {})", s.coq(), c.coq(), list(items));
+    let human = format!("{tag} match_pattern (n<from>)-[*{}..{} dir={} types={:?}]->(n<to>) pairs={} graph: {}", c.min, c.max, c.dir, c.types, ps.len(), s.human());
+    k.pat.push(&term, &human, some);
 }
 
 fn pairs_coq(v: &[(u64, u64)]) -> String {
@@ -945,6 +1044,20 @@ fn run_graph(r: &mut Rng, ops: &[BOp], tag: &str, k: &mut Kinds, dist: &mut Dist
         dist.hit(&format!("varp.hops.{}..{}", c.min, c.max));
         varp_case(&e, &s, &c, &ps, &tagg, k, dist);
     }
+    // variable-length pattern matching (existing nodes only; no filter, no cycles, one edge type at most)
+    {
+        let mut c = gen_vcfg(r, big);
+        c.cycles = false;
+        c.filt = None;
+        c.max_paths = 100_000;
+        if let Some(ts) = &mut c.types {
+            ts.truncate(1);
+        }
+        let mut ps = pairs(r, &ids, 6, 25, ghost);
+        ps.retain(|(a, bb)| ids.contains(a) && ids.contains(bb));
+        dist.hit(&format!("pat.hops.{}..{}", c.min, c.max));
+        pat_case(&e, &s, &c, &ps, &tagg, k, dist);
+    }
     // traverse
     for _ in 0..(if light { 1 } else { 2 }) {
         let dir = r.below(3);
@@ -977,6 +1090,7 @@ fn main() {
         astar: CaseWriter::new(&args.out, "astar"),
         algo: CaseWriter::new(&args.out, "algo"),
         allw: CaseWriter::new(&args.out, "allw"),
+        pat: CaseWriter::new(&args.out, "pat"),
     };
 
     // --- corpus first -------------------------------------------------------------------------
@@ -1042,6 +1156,16 @@ fn main() {
         for _ in 0..args.budget(50, 2000) {
             corp.push(gen_weighted_small(&mut rng));
         }
+        // corpus: S=1 X=2 Y=3 T=4: S->X 10, S->Y 1, Y->X 1, X->T 1, S->T 5 (optimum S,Y,X,T = 3: X is queued
+        // expensively, improved while queued, and a competing direct edge lies in between)
+        corp.insert(0, vec![BOp::Node(Some(0)), BOp::Node(Some(0)), BOp::Node(Some(0)), BOp::Node(Some(0)),
+            BOp::Edge(1, 2, true, 0, Some(10), None), BOp::Edge(1, 3, true, 0, Some(1), None), BOp::Edge(3, 2, true, 0, Some(1), None),
+            BOp::Edge(2, 4, true, 0, Some(1), None), BOp::Edge(1, 4, true, 0, Some(5), None)]);
+        // corpus: a->b created before a->c, then c->b (and the other creation order): (a)-[*2..2]->(b)
+        corp.insert(0, vec![BOp::Node(Some(0)), BOp::Node(Some(0)), BOp::Node(Some(0)),
+            BOp::Edge(1, 2, true, 0, Some(1), None), BOp::Edge(1, 3, true, 0, Some(1), None), BOp::Edge(3, 2, true, 0, Some(1), None)]);
+        corp.insert(0, vec![BOp::Node(Some(0)), BOp::Node(Some(0)), BOp::Node(Some(0)),
+            BOp::Edge(1, 3, true, 0, Some(1), None), BOp::Edge(1, 2, true, 0, Some(1), None), BOp::Edge(3, 2, true, 0, Some(1), None)]);
         // corpus: the zero-weight edge walked both ways (hung before fix 23f86df7)
         corp.insert(0, vec![BOp::Node(Some(0)), BOp::Node(Some(0)), BOp::Node(Some(0)),
             BOp::Edge(1, 2, true, 0, Some(1), None), BOp::Edge(2, 3, false, 0, Some(0), None)]);
@@ -1050,7 +1174,17 @@ fn main() {
             let s = snapshot(&e);
             let ids: Vec<u64> = s.nodes.iter().map(|x| x.0).collect();
             let ps = pairs(&mut rng, &ids, 7, 0, 99);
-            if !allw_case(&e, &s, &ps, &format!("weighted#{i} script={:?};", ops), &mut k, &mut dist) {
+            let tagw = format!("weighted#{i} script={:?};", ops);
+            let real: Vec<(u64, u64)> = ps.iter().copied().filter(|(a, bb)| ids.contains(a) && ids.contains(bb)).collect();
+            for (dir, variant) in [(0u64, 0u64), (0, 1), (rng.range(1, 2), rng.below(2))] {
+                astar_case_v(&e, &s, dir, variant, &real, &tagw, &mut k, &mut dist);
+                dist.hit(if variant == 1 { "astar.weighted_family.half_true_distance_heuristic" } else { "astar.weighted_family.zero_heuristic" });
+            }
+            for (mn, mx) in [(2u64, 2u64), (1, 3)] {
+                let c = VCfg { min: mn, max: mx, dir: 0, types: None, max_paths: 100_000, cycles: false, filt: None };
+                pat_case(&e, &s, &c, &real, &tagw, &mut k, &mut dist);
+            }
+            if !allw_case(&e, &s, &ps, &tagw, &mut k, &mut dist) {
                 break;
             }
         }
@@ -1067,7 +1201,7 @@ fn main() {
         &args.out,
         json!({
             "property": "C18", "seed": args.seed, "tier": args.tier,
-            "kinds": [k.bfs.summary(), k.wpath.summary(), k.allp.summary(), k.varp.summary(), k.trav.summary(), k.astar.summary(), k.algo.summary(), k.allw.summary()],
+            "kinds": [k.bfs.summary(), k.wpath.summary(), k.allp.summary(), k.varp.summary(), k.trav.summary(), k.astar.summary(), k.algo.summary(), k.allw.summary(), k.pat.summary()],
             "distribution": dist.json(),
             "nontrivial_rule": "bfs/wpath/astar: some returned path has >= 2 hops; allp: some pair has >= 2 shortest paths; varp: some returned path has >= 2 hops; trav: some traversal returns >= 3 nodes; algo: graph has >= 3 edges",
         }),
